@@ -111,3 +111,18 @@ Theorem C17_permission_bits_of_existing_objects_unchanged :
     forall (m : modes) p, look fs p <> None -> mode_of m fs' p = mode_of m fs p.
 Proof. exact modes_of_existing_objects_unchanged. Qed.
 Print Assumptions C17_permission_bits_of_existing_objects_unchanged.
+
+(* The command with ANY output argument (extract_main = ExtractCar).  With "-" the contents go to
+   standard output and the file system is not touched at all (no file-system call is made in that
+   mode); with any other argument nothing is written to standard output and containment holds. *)
+Theorem C17_extract_main_stdout_mode_touches_nothing_else_contained :
+  forall fs cwd outdir pathflag roots fs' out res,
+    (forall k, look fs (Nat.iter k (@removelast name) cwd) = Some NDir) ->
+    extract_main true fs cwd outdir pathflag roots = (fs', out, res) ->
+    (outdir = s_dash -> fs' = fs) /\
+    (outdir <> s_dash ->
+     out = [] /\
+     forall root, eval_symlinks_str fs cwd outdir = Some root ->
+       forall p, ~ under (phys_of cwd root) p -> look fs' p = look fs p).
+Proof. exact extract_main_contained. Qed.
+Print Assumptions C17_extract_main_stdout_mode_touches_nothing_else_contained.
